@@ -680,6 +680,8 @@ def c07(ctx):
     proof_verdict(ctx, ok)
 
 
+# positions of the register operands of each script operation (everything else is data, a backend letter, a key or a kind)
+REG_POS = {"clone": (1, 2), "clonefrom": (1, 2), "restorefrom": (1, 3), "frestorefrom": (1, 3)}
 INT_WIDTH = {"u8": 1, "u16": 2, "u32": 4, "u64": 8, "u128": 16, "usize": 8, "i8": 1, "i16": 2, "i32": 4, "i64": 8, "i128": 16, "isize": 8}
 INT_KINDS = tuple(INT_WIDTH)
 
@@ -1379,11 +1381,8 @@ def c15(ctx):
             ren = []
             for l in lines:
                 t = l.split()
-                for pos in (1, 2, 3):
-                    if pos < len(t) and t[pos].isdigit() and len(t[pos]) < 3 and not (t[0].startswith(("new", "fnew")) and pos > 1) \
-                            and not (t[0] in ("restore", "frestore") and pos > 1) and not (t[0] == "default" and pos > 1) \
-                            and not (t[0] in ("append", "write", "writeall", "iocopy", "hwrite", "hwint") and pos > 1) and not (t[0].startswith("hash") and pos > 1) \
-                            and not (t[0] in ("restorefrom", "frestorefrom") and pos == 2):
+                for pos in REG_POS.get(t[0], (1,)):      # only the positions that hold a register number for this operation
+                    if pos < len(t):
                         t[pos] = str(int(t[pos]) + 10 * (j + 1))
                 ren.append(" ".join(t))
             subs.append(ren)
